@@ -262,7 +262,7 @@ def triage(prop, tier, base_seed, results, log):
     for k, (r, v) in sorted(by_sig.items(),
                             key=lambda kv: kv[1][0]['index']):
         kf = match_known(pid, v['sig'], known)
-        plan = r['plan']
+        plan = v.get('plan') or r['plan']
         small, nruns = minimise(prop, plan, k)
         fin = prop.execute(jsonable(small))
         vv = same_violation(fin, k)
@@ -320,8 +320,12 @@ def write_evidence(prop, tier, base_seed, results, wall, extra, nviol,
     scheds = set()
     sim_s = 0.0
     steps = 0
+    nevals = 0
     for r in ok:
-        if r.get('nontrivial'):
+        nevals += r.get('evals', 1)
+        if r.get('nt_keys') is not None:
+            keys.update(r['nt_keys'])
+        elif r.get('nontrivial'):
             keys.add(r.get('key') or r.get('digest'))
         for a, b in (r.get('faults') or {}).items():
             faults[a] = faults.get(a, 0) + b
@@ -343,12 +347,13 @@ def write_evidence(prop, tier, base_seed, results, wall, extra, nviol,
         samples = [r.get('plan_sample') for r in ok[:2]
                    if r.get('plan_sample')] or ['(no sample recorded)']
     cov = {
-        'evaluations': len(ok),
+        'evaluations': nevals,
+        'plans': len(ok),
         'distinct_nontrivial': len(keys),
         'rule': prop.RULE,
         'samples': jsonable(samples),
         'exhaustive': bool(getattr(prop, 'EXHAUSTIVE', {}).get(tier, False)),
-        'runs_per_hour': int(len(ok) / wall * 3600) if wall > 0 else 0,
+        'runs_per_hour': int(nevals / wall * 3600) if wall > 0 else 0,
         'steps_executed': steps,
         'sim_seconds_covered': round(sim_s, 3),
         'fault_fired': faults,
@@ -446,7 +451,7 @@ def main_check(pid, tier, base_seed, workers, log=print):
     ev = write_evidence(prop, tier, base_seed, results, wall, extra, new,
                         skipped)
     c = ev['coverage']
-    log('%s: %d plans, %d non-trivial distinct, %d steps, %.0f sim-s, '
+    log('%s: %d runs, %d non-trivial distinct, %d steps, %.0f sim-s, '
         'faults=%s, %d new violations, %d known findings, %.1fs' % (
             pid, c['evaluations'], c['distinct_nontrivial'],
             c['steps_executed'], c['sim_seconds_covered'],
